@@ -791,8 +791,21 @@ func check(id, tier string) int {
 	}
 	sort.Strings(names)
 	var capped []string
+	raceUnit := map[string]bool{}
+	for i := range h.Units {
+		raceUnit[h.Units[i].Name] = h.Units[i].Race
+	}
+	var racePass []map[string]any
 	for _, n := range names {
 		s := sums[n]
+		if raceUnit[n] {
+			// the supporting race pass is reported on its own: it validates the exploration's atomicity assumption on a
+			// deterministic prefix of the same search order and is not part of the exhaustive enumeration's counts
+			racePass = append(racePass, map[string]any{"unit": n, "executions_under_the_race_detector": s.Evals,
+				"visible_operations": s.Trans, "detector_reports_incl_harness_bookkeeping": s.Extra["race_detector_reports"],
+				"executions_capped_per_exploration_call": true})
+			continue
+		}
 		ulist = append(ulist, s)
 		tot.Evals += s.Evals
 		tot.States += s.States
@@ -820,6 +833,9 @@ func check(id, tier string) int {
 	}
 	if len(capped) > 0 {
 		cov["capped"] = capped
+	}
+	if len(racePass) > 0 {
+		cov["race_pass"] = racePass
 	}
 	if len(fresh) > 0 {
 		var l []map[string]any
